@@ -2,7 +2,7 @@ import Model.FS
 /-!
 # C15 — model of the FileSet information cache (typhon/files/fileset.py, handlers/common.py)
 
-Modelled code (after the `fix:` commit 6930570):
+Modelled code (after the `fix:` commits 6930570 and ace221c):
 
 * `FileInfo.to_json_dict`   — `toJsonDict`  (times via `datetime.isoformat(timespec="microseconds")` = `fmtTime`)
 * `FileInfo.from_json_dict` — `fromJsonDict` (times via `strptime(.., "%Y-%m-%dT%H:%M:%S.%f")` = `parseTime`)
@@ -144,16 +144,10 @@ def Key.toJ : Key → J
   | .num l => .num l
   | .str s => .str s
 
-/-- one entry of `FileInfo.times` -/
-inductive TSlot where
-  | time (t : DateTime)
-  | noneList                  -- `from_json_dict` appends `[None]` for a JSON `null`
-  deriving DecidableEq, Repr, Inhabited
-
 structure Info where
   path : Key
-  t0 : TSlot
-  t1 : TSlot
+  t0 : DateTime
+  t1 : DateTime
   attr : J
   deriving Inhabited
 
@@ -164,13 +158,12 @@ def jget (kvs : List (String × J)) (k : String) : Option J :=
     | some w => some w
     | none => if k' = k then some v else none
 
-def timeSlot : J → Option TSlot
-  | .null => some .noneList
-  | .str s => (parseTime s.toList).map .time
-  | _ => none                                  -- TypeError: strptime() argument 1 must be str
+def timeSlot : J → Option DateTime
+  | .str s => parseTime s.toList
+  | _ => none       -- null: ValueError "time coverage is missing" (fix ace221c); other types: TypeError in strptime
 
 /-- `json_dict["times"][0]`, `json_dict["times"][1]` -/
-def timesOf : J → Option (TSlot × TSlot)
+def timesOf : J → Option (DateTime × DateTime)
   | .arr (a :: b :: _) =>
     match timeSlot a, timeSlot b with
     | some x, some y => some (x, y)
@@ -191,14 +184,11 @@ def fromJsonDict : J → Option Info
     | _, _, _ => none
   | _ => none                                  -- `json_dict["path"]` on a non-dict: TypeError
 
-/-- `info.to_json_dict()`; `none` = AttributeError (`[None].isoformat`) -/
-def toJsonDict (i : Info) : Option J :=
-  match i.t0, i.t1 with
-  | .time a, .time b =>
-    some (.obj [("path", i.path.toJ),
-                ("times", .arr [.str (String.ofList (fmtTime a)), .str (String.ofList (fmtTime b))]),
-                ("attr", i.attr)])
-  | _, _ => none
+/-- `info.to_json_dict()` -/
+def toJsonDict (i : Info) : J :=
+  .obj [("path", i.path.toJ),
+        ("times", .arr [.str (String.ofList (fmtTime i.t0)), .str (String.ofList (fmtTime i.t1))]),
+        ("attr", i.attr)]
 
 /-! ## the in-memory cache: an insertion-ordered dictionary -/
 
@@ -304,9 +294,9 @@ def crashExc (d : Disk) (file : String) (evs : List Ev) (n : Nat) : Disk :=
 
 /-! ## save / load / init / get_info -/
 
-/-- the list handed to `json.dump`; `none` when a `to_json_dict` raises -/
-def cacheDoc (c : CacheMap) : Option J :=
-  (c.mapM (fun kv => toJsonDict kv.2)).map .arr
+/-- the list handed to `json.dump` -/
+def cacheDoc (c : CacheMap) : J :=
+  .arr (c.map (fun kv => toJsonDict kv.2))
 
 structure LoadResult where
   cache : CacheMap
